@@ -762,3 +762,92 @@ Section WithConsts.
     rewrite IH. destruct (service_inside split self sv); reflexivity.
   Qed.
 End WithConsts.
+
+(* ================================================================ inside / not inside *)
+Section Inside.
+  Variable K : consts.
+  Hypothesis HK : consts_ok K = true.
+
+  Lemma Forall2_len : forall (A B : Type) (R : A -> B -> Prop) l1 l2, Forall2 R l1 l2 -> length l1 = length l2.
+  Proof. induction 1; simpl; auto. Qed.
+
+  Lemma norm_enclosed : forall a b, b <> Some [] -> elem_enclosed a b -> elem_enclosed a (norm b).
+  Proof. intros a [[|x xs]|] Hb H; simpl; auto. congruence. Qed.
+
+  Lemma norm_neq : forall x v, x <> Some v -> norm x <> Some v.
+  Proof. intros [[|y ys]|] v H; simpl; congruence. Qed.
+
+  Lemma published_inside : forall bad fixed l l' s,
+    wf_loc K l -> nonempty_fields l -> published_of K l = Some s ->
+    l_root l' = c_ident_root K -> Forall2 elem_enclosed (l_vals l') (l_vals l) ->
+    scope_matches K fixed (urlsplit bad) l' s = Ret true.
+  Proof.
+    intros bad fixed l l' s Hwf Hne Hp Hr Hv. unfold scope_matches.
+    rewrite (published_parse K HK bad l s Hwf Hp). f_equal.
+    apply contains_spec; simpl.
+    - rewrite map_length. eapply Forall2_len; eauto.
+    - split; auto. rewrite (norm_id _ Hne). exact Hv.
+  Qed.
+
+  Lemma published_not_inside : forall bad fixed l l' s i v x,
+    wf_loc K l -> published_of K l = Some s ->
+    nth_error (l_vals l') i = Some (Some v) -> nth_error (l_vals l) i = Some x -> x <> Some v ->
+    scope_matches K fixed (urlsplit bad) l' s = Ret false.
+  Proof.
+    intros bad fixed l l' s i v x Hwf Hp H1 H2 Hx. unfold scope_matches.
+    rewrite (published_parse K HK bad l s Hwf Hp). f_equal.
+    apply (contains_false_at l' _ i v H1). simpl. exists (norm x). split.
+    - now apply map_nth_error.
+    - now apply norm_neq.
+  Qed.
+
+  Lemma published_not_inside_root : forall bad fixed l l' s,
+    wf_loc K l -> published_of K l = Some s -> l_root l' <> c_ident_root K ->
+    scope_matches K fixed (urlsplit bad) l' s = Ret false.
+  Proof.
+    intros bad fixed l l' s Hwf Hp Hr. unfold scope_matches.
+    rewrite (published_parse K HK bad l s Hwf Hp). f_equal. unfold contains. simpl.
+    apply andb_false_iff. left. now apply bytes_eqb_neq.
+  Qed.
+
+  Lemma scope_string_inside : forall bad fixed l l',
+    wf_loc K l -> nonempty_fields l -> root_ok (l_root l) = true ->
+    l_root l' = l_root l -> Forall2 elem_enclosed (l_vals l') (l_vals l) ->
+    scope_matches K fixed (urlsplit bad) l' (scope_string K l) = Ret true.
+  Proof.
+    intros bad fixed l l' Hwf Hne Hro Hr Hv. unfold scope_matches.
+    rewrite (roundtrip K HK bad l Hwf Hne Hro). f_equal.
+    apply contains_spec; auto. eapply Forall2_len; eauto.
+  Qed.
+
+  Lemma scope_string_not_inside : forall bad fixed l l' i v x,
+    wf_loc K l -> nonempty_fields l -> root_ok (l_root l) = true ->
+    nth_error (l_vals l') i = Some (Some v) -> nth_error (l_vals l) i = Some x -> x <> Some v ->
+    scope_matches K fixed (urlsplit bad) l' (scope_string K l) = Ret false.
+  Proof.
+    intros bad fixed l l' i v x Hwf Hne Hro H1 H2 Hx. unfold scope_matches.
+    rewrite (roundtrip K HK bad l Hwf Hne Hro). f_equal.
+    apply (contains_false_at l' l i v H1). eauto.
+  Qed.
+
+  (* update_from_sdc_location accepts every location with at least one non-empty element *)
+  Lemma published_defined : forall l v,
+    wf_loc K l -> In (Some v) (l_vals l) -> v <> [] -> exists s, published_of K l = Some s.
+  Proof.
+    intros l v Hwf Hin Hv. unfold published_of, state_of.
+    destruct (bytes_eqb (loc_extension l) slash5) eqn:E; [|eexists; reflexivity].
+    exfalso. apply bytes_eqb_eq in E. unfold loc_extension in E.
+    destruct Hwf as [Hlen Hb].
+    assert (Hparts : Forall (fun p => mem 47 p = false) (map (fun v => quote [] (val_or_empty v)) (l_vals l))).
+    { apply Forall_map. eapply Forall_impl; [|exact Hb]. intros [x|] Hx; simpl; [|reflexivity].
+      now apply quote_nil_no47. }
+    assert (Hnn : map (fun v => quote [] (val_or_empty v)) (l_vals l) <> []).
+    { destruct (l_vals l); [destruct Hin|discriminate]. }
+    pose proof (split_on_join 47 _ Hnn Hparts) as S. rewrite E in S.
+    assert (In (quote [] v) (split_on 47 slash5)).
+    { rewrite S. apply (in_map (fun v => quote [] (val_or_empty v)) _ (Some v)). exact Hin. }
+    assert (quote [] v = []).
+    { vm_compute in H. repeat (destruct H as [H|H]; [now symmetry|]). destruct H. }
+    apply quote_nil_iff in H0. contradiction.
+  Qed.
+End Inside.
